@@ -238,7 +238,7 @@ func (g *Gen) needRunes() {
 	g.declare("(assert (forall ((s Str)) (! (=> (> (str_len s) 0) (and (> (rune_count s) 0) (= (rune_pos s 0) 0))) :pattern ((rune_count s)))))")
 	// every byte belongs to exactly one rune of the iteration (rune_of); a rune whose first byte is ASCII is that single byte
 	g.declare("(declare-fun rune_of (Str Int) Int)")
-	g.declare("(assert (forall ((s Str) (i Int)) (! (=> (and (<= 0 i) (< i (str_len s))) (and (<= 0 (rune_of s i)) (< (rune_of s i) (rune_count s)) (<= (rune_pos s (rune_of s i)) i) (>= (rune_val s (rune_of s i)) 0) (=> (< (str_at s (rune_pos s (rune_of s i))) 128) (= (rune_pos s (rune_of s i)) i)))) :pattern ((str_at s i)))))")
+	g.declare("(assert (forall ((s Str) (i Int)) (! (=> (and (<= 0 i) (< i (str_len s))) (and (<= 0 (rune_of s i)) (< (rune_of s i) (rune_count s)) (<= (rune_pos s (rune_of s i)) i) (>= (rune_val s (rune_of s i)) 0) (=> (< (str_at s (rune_pos s (rune_of s i))) 128) (= (rune_pos s (rune_of s i)) i)) (=> (< (str_at s i) 128) (= (rune_pos s (rune_of s i)) i)))) :pattern ((str_at s i)))))")
 }
 
 // callLib models a call to a function outside the repository.
@@ -597,7 +597,9 @@ func (e *Exec) sortFunc(x *ssa.Call) {
 		}
 		for _, rec := range root.invRecords {
 			if rec.head != e.curBlock && rec.head.Dominates(e.curBlock) {
+				e.root().reinst = true
 				e.assume(implies(rec.reach, e.invExpr(rec.expr, rec.head, rec.cur, true)))
+				e.root().reinst = false
 			}
 		}
 	}
